@@ -42,10 +42,16 @@ def Tup(a, b):
 
 
 SATCLASS, SATOBJ, SATPROFILE, SATENTRY = "SatClass", "SatObj", "SatProfile", "SatEntry"
+PAYMENTS, PAYROW, RELAX, ERRORS = "Payments", "PayRow", "Relax", "Errors"
+# list profiles of the proportionality checkers (the source does not handle multiprofiles there): approval / cardinal
+APPLP, CARDLP, SATCLASSL, PDICT = "AppLProfile", "CardLProfile", "SatClassL", "ProjDict"
 
 
 GTY = {Q: "Q", B: "bool", PROJ: "py_proj", INST: "py_inst", PROFILE: "py_profile", BALLOT: "py_ballot",
        PBALLOT: "py_pballot", APROFILE: "py_aprofile", DICT: "py_dict", STR: "string",
+       "AppLProfile": "(list py_ballot)", "CardLProfile": "(list py_ballot)", "SatClassL": "py_satclass_l",
+       "ProjDict": "(py_proj -> Q)",
+       "Payments": "py_payments", "PayRow": "(list Q)", "Relax": "py_relax", "Errors": "bool",
        "SatClass": "py_satclass", "SatObj": "py_satobj", "SatProfile": "py_satprofile", "SatEntry": "py_satentry"}
 
 
@@ -121,6 +127,40 @@ def _walk_no_defs(nodes, stop_loops=False):
             stack.append(c)
 
 
+ONESHOT_CALLS = ("enumerate", "zip", "map", "filter", "iter", "reversed")
+
+
+def is_oneshot(node):
+    """an expression whose value is a one-shot iterator: it can be consumed only once"""
+    return isinstance(node, ast.GeneratorExp) or (
+        isinstance(node, ast.Call) and isinstance(node.func, ast.Name) and node.func.id in ONESHOT_CALLS)
+
+
+def consumed_once(stmts, name):
+    """is the variable read at most once, and not inside a loop / comprehension / local function (where the read
+    could happen several times)?"""
+    loads = 0
+    stack = [(s, False) for s in stmts]
+    while stack:
+        n, inloop = stack.pop()
+        if isinstance(n, ast.Name) and n.id == name and isinstance(n.ctx, ast.Load):
+            loads += 1
+            if inloop:
+                return False
+        for c in ast.iter_child_nodes(n):
+            deeper = inloop
+            if isinstance(n, (ast.For, ast.While)) and c in n.body:
+                deeper = True
+            if isinstance(n, (ast.ListComp, ast.SetComp, ast.DictComp, ast.GeneratorExp)) and c is not n.generators[0].iter:
+                deeper = True
+            if isinstance(n, ast.comprehension) and c is not n.iter:
+                deeper = True
+            if isinstance(n, (ast.Lambda, ast.FunctionDef)):
+                deeper = True
+            stack.append((c, deeper))
+    return loads <= 1
+
+
 def gname(name):
     return "yielded" if name == "$yield" else "v_" + name
 
@@ -191,6 +231,8 @@ class FuncTranslator:
             return V("(py_truth %s)" % v.term, B)
         if v.ty == NONE:
             return V("false", B, const=False)
+        if v.ty == ERRORS:          # a dict of error lists: truthy iff something was appended
+            return V(v.term, B)
         if isinstance(v.ty, tuple) and v.ty[0] == "List":
             return V("(negb (py_is_empty %s))" % v.term, B)
         raise Unsupported("truth value of a %r" % (v.ty,))
@@ -209,6 +251,8 @@ class FuncTranslator:
             return V("(py_instance_iter %s)" % v.term, List(PROJ))
         if t == SATPROFILE:
             return V("(py_satprofile_iter %s)" % v.term, List(SATENTRY))
+        if t in (APPLP, CARDLP):
+            return V(v.term, List(BALLOT))
         if isinstance(t, tuple) and t[0] == "Tup" and t[1][0] == t[1][1]:
             return V("[fst %s; snd %s]" % (v.term, v.term), List(t[1][0]))
         raise Unsupported("iteration over a %r" % (t,))
@@ -240,10 +284,12 @@ class FuncTranslator:
         h = self.W.helper_macro(n.id)
         if h is not None:
             return h
+        if n.id in self.W.constants:
+            return V(qlit(self.W.constants[n.id]), Q)
         if n.id in self.W.sat_class_names():
-            # a satisfaction class used as a value: an opaque parameter (instance, profile, ballot) -> sat
-            self.extras["cls_" + n.id] = "py_satclass"
-            return V("cls_" + n.id, SATCLASS)
+            # a satisfaction class used as a value: an opaque parameter (instance, profile, ballot) -> sat; which
+            # profile representation it takes is decided where it is used
+            return V("cls_" + n.id, "ClassName")
         raise Unsupported("unknown name %s" % n.id)
 
     def e_Constant(self, n, env):
@@ -334,6 +380,16 @@ class FuncTranslator:
         left = self.expr(n.left, env)
         for op, rn in zip(n.ops, n.comparators):
             right = self.expr(rn, env)
+            if left.ty == "ErrLen" or right.ty == "ErrLen":
+                e, z = (left, rn) if left.ty == "ErrLen" else (right, n.left)
+                if not (isinstance(z, ast.Constant) and z.value == 0 and not isinstance(z.value, bool)) \
+                        or not isinstance(op, (ast.Eq, ast.NotEq, ast.Gt, ast.Lt)) or len(n.ops) != 1:
+                    raise Unsupported("len(errors) compared with something else than 0")
+                isempty = isinstance(op, ast.Eq)
+                r = V("(negb %s)" % e.term if isempty else e.term, B)
+                parts.append(r)
+                left = right
+                continue
             if isinstance(op, (ast.In, ast.NotIn)):
                 if right.ty == CACHE:
                     hit = ast.unparse(n.left) in right.macro
@@ -412,14 +468,19 @@ class FuncTranslator:
         x, env2, src, et = self.comprehension(n, env)
         if isinstance(n.elt, ast.Name) and n.elt.id == x:      # [p for p in xs if c]
             return V(src, List(et))
-        self.no_div += 1
-        try:
-            e = self.expr(n.elt, env2)
-        finally:
-            self.no_div -= 1
+        n0 = len(self.pending)
+        e = self.expr(n.elt, env2)
+        new, self.pending = self.pending[n0:], self.pending[:n0]
+        if new:      # an obligation of the element (division, min of a possibly empty sequence): for every element
+            self.pending.append("(forallb (fun %s => %s) %s)" % (gname(x), " && ".join(new), src))
         return V("(map (fun %s => %s) %s)" % (gname(x), e.term, src), List(e.ty))
 
-    e_GeneratorExp = e_ListComp
+    def e_GeneratorExp(self, n, env):
+        v = self.e_ListComp(n, env)
+        v.oneshot = True
+        return v
+
+    e_SetComp = e_ListComp        # a set built from a duplicate-free collection, only summed / tested afterwards
 
     def e_List(self, n, env):
         vs = [self.expr(x, env) for x in n.elts]
@@ -447,6 +508,37 @@ class FuncTranslator:
             items.append("(%s, %s)" % (coq_string(k.value), self.num(self.expr(v, env)).term))
         return V("(py_dict_of [" + "; ".join(items) + "])", DICT)
 
+    def e_DictComp(self, n, env):
+        """two idioms of an error collector: {key: [] for key in <literal keys>} (empty) and
+        {k: v for k, v in errors.items() if v} (the non-empty lists of a collector: non-empty iff it is)"""
+        if len(n.generators) == 1 and not n.generators[0].ifs and isinstance(n.value, ast.List) and not n.value.elts \
+                and isinstance(n.generators[0].iter, (ast.Tuple, ast.List)) \
+                and all(isinstance(e, ast.Constant) and isinstance(e.value, str) for e in n.generators[0].iter.elts):
+            return V("false", ERRORS)
+        g = n.generators[0] if len(n.generators) == 1 else None
+        if g is not None and isinstance(g.iter, ast.Call) and isinstance(g.iter.func, ast.Attribute) \
+                and g.iter.func.attr == "items" and not g.iter.args and isinstance(g.target, ast.Tuple) \
+                and len(g.target.elts) == 2 and all(isinstance(e, ast.Name) for e in g.target.elts) \
+                and isinstance(n.key, ast.Name) and isinstance(n.value, ast.Name) \
+                and n.key.id == g.target.elts[0].id and n.value.id == g.target.elts[1].id \
+                and len(g.ifs) == 1 and isinstance(g.ifs[0], ast.Name) and g.ifs[0].id == n.value.id:
+            src = self.expr(g.iter.func.value, env)
+            if src.ty == ERRORS:
+                return V(src.term, ERRORS)
+        if g is not None and isinstance(g.target, ast.Name) and isinstance(n.key, ast.Name) \
+                and n.key.id == g.target.id and not g.ifs:
+            it = self.to_list(self.expr(g.iter, env))
+            if it.ty == List(PROJ):      # {p: e for p in projects}: the function p -> e (its domain is not kept)
+                env2 = dict(env)
+                env2[g.target.id] = V(gname(g.target.id), PROJ)
+                n0 = len(self.pending)
+                e = self.num(self.expr(n.value, env2))
+                new, self.pending = self.pending[n0:], self.pending[:n0]
+                if new:
+                    self.pending.append("(forallb (fun %s => %s) %s)" % (gname(g.target.id), " && ".join(new), it.term))
+                return V("(fun %s => %s)" % (gname(g.target.id), e.term), PDICT)
+        raise Unsupported("dict comprehension outside the fragment")
+
     def e_Lambda(self, n, env):
         a = n.args
         if a.vararg or a.kwarg or a.kwonlyargs or a.defaults or a.posonlyargs:
@@ -460,6 +552,21 @@ class FuncTranslator:
             if k in o.macro:
                 return o.macro[k]
             raise Unsupported("read of the memo cache before it is written")
+        if o.ty == PDICT:
+            k = self.expr(n.slice, env)
+            if k.ty == PROJ:          # a dict keyed by projects, built by a comprehension (KeyError is not tracked)
+                return V("(%s %s)" % (o.term, k.term), Q)
+        if o.ty == PAYMENTS:          # payment_functions[idx]: the payments of the voter at that position
+            k = self.num(self.expr(n.slice, env))
+            return V("(py_pay_row %s %s)" % (o.term, k.term), PAYROW)
+        if o.ty == PAYROW:
+            k = self.expr(n.slice, env)
+            if k.ty == PROJ:
+                return V("(py_row_get %s %s)" % (o.term, k.term), Q)
+        if o.ty == List(Q) and not isinstance(n.slice, (ast.Constant, ast.Slice)):
+            k = self.expr(n.slice, env)
+            if k.ty == Q:             # xs[i] for a computed position (IndexError is not tracked)
+                return V("(py_list_get %s %s)" % (o.term, k.term), Q)
         if o.ty == DICT:
             if isinstance(n.slice, ast.Constant) and isinstance(n.slice.value, str):
                 return V("(py_dict_get %s %s)" % (o.term, coq_string(n.slice.value)), Q)
@@ -479,6 +586,11 @@ class FuncTranslator:
     def apply_macro(self, m, args):
         if len(args) != len(m.params):
             raise Unsupported("call of a local function with the wrong number of arguments")
+        for p_, a_ in zip(m.params, args):
+            if getattr(a_, "oneshot", False):
+                body_ = m.body if isinstance(m.body, list) else [ast.Expr(value=m.body)]
+                if not consumed_once(body_, p_):
+                    raise Unsupported("a one-shot iterator handed to a local function that reads it more than once")
         env2 = dict(m.env)
         amb = getattr(self, "ambient_env", None) or {}
         if "$inst" not in env2 and "$inst" in amb:
@@ -501,6 +613,15 @@ class FuncTranslator:
                 raise Unsupported("a satisfaction class is called with (instance, profile, ballot)")
             ts = [self.coerce(a, t).term for a, t in zip(args, (INST, PROFILE, PBALLOT))]
             return V("(%s %s)" % (f.term, " ".join(ts)), SATOBJ)
+        if f.ty == SATCLASSL:     # sat_class(instance, profile, ballot) on a list profile
+            if len(args) != 3 or args[1].ty not in (APPLP, CARDLP):
+                raise Unsupported("a satisfaction class is called with (instance, profile, ballot)")
+            ts = [self.coerce(args[0], INST).term, args[1].term, self.coerce(args[2], BALLOT).term]
+            return V("(%s %s)" % (f.term, " ".join(ts)), SATOBJ)
+        if f.ty == "ClassName":
+            if len(args) == 3 and args[1].ty in (APPLP, CARDLP):
+                return self.apply_fun(self.coerce(f, SATCLASSL), args)
+            return self.apply_fun(self.coerce(f, SATCLASS), args)
         if not (isinstance(f.ty, tuple) and f.ty[0] == "Fun"):
             raise Unsupported("call of something that is not a function")
         if len(args) != len(f.ty[1]):
@@ -531,6 +652,11 @@ class FuncTranslator:
     def coerce(self, a, t):
         if a.ty == t:
             return a
+        if a.ty == "ClassName" and t in (SATCLASS, SATCLASSL):
+            if self.extras.get(a.term, gty(t)) != gty(t):
+                raise Unsupported("a satisfaction class used with two profile representations")
+            self.extras[a.term] = gty(t)
+            return V(a.term, t)
         if t == Q:
             return self.num(a)
         if isinstance(t, tuple) and t[0] == "List" and a.ty == List(None):
@@ -584,6 +710,9 @@ class FuncTranslator:
                             and x.ty[1][0] == "List"):
                         raise Unsupported("chain.from_iterable of something that is not a sequence of sequences")
                     return V("(py_chain %s)" % x.term, x.ty[1])
+                if q == "collections.defaultdict" and len(n.args) == 1 and isinstance(n.args[0], ast.Name) \
+                        and n.args[0].id == "list":
+                    return V("false", ERRORS)      # the collector of error messages: empty
                 if q == "np.array" and len(n.args) == 1:      # an array of exact numbers is the list of them
                     return self.to_list(self.expr(n.args[0], env))
                 if q == "np.median" and len(n.args) == 1:
@@ -595,6 +724,14 @@ class FuncTranslator:
             args = [self.expr(a, env) for a in n.args]
             if n.keywords:
                 raise Unsupported("keyword arguments in a method call")
+            if o.ty == RELAX and f.attr == "get_relaxed_cost" and len(args) == 1 and args[0].ty == PROJ:
+                return V("(py_relaxed_cost %s %s %s)" % (self.inst(env).term, o.term, args[0].term), Q)
+            if o.ty == SATOBJ and f.attr == "sat_project" and len(args) == 1 and args[0].ty == PROJ:
+                return V("(%s [%s])" % (o.term, args[0].term), Q)
+            if o.ty in (APPLP, CARDLP) and f.attr == "multiplicity" and len(args) == 1 and args[0].ty == BALLOT:
+                return V("1", Q)          # a list profile: every ballot once
+            if o.ty in (APPLP, CARDLP) and f.attr == "num_ballots" and not args:
+                return V("(py_len %s)" % o.term, Q)
             if o.ty == SATOBJ and f.attr == "sat" and len(args) == 1:
                 return V("(%s %s)" % (o.term, self.coerce(args[0], List(PROJ)).term), Q)
             if o.ty == SATENTRY and f.attr == "sat" and len(args) == 1:
@@ -680,8 +817,23 @@ class FuncTranslator:
                     self.pending.append(ob)
                     return V("(py_%s_list %s 0)" % (name, xs.term), Q)
             raise Unsupported("%s(...) of this shape is outside the fragment" % name)
+        if self.W.variants(name) and name not in env and name not in (
+                "total_cost", "max_budget_allocation_cardinality"):      # these two stay vocabulary at call sites
+            return self.call_translated(name, n, env)
         if n.keywords:
             raise Unsupported("keyword arguments in a call of %s" % name)
+        if name == "isinstance" and len(n.args) == 2 and isinstance(n.args[1], ast.Name) \
+                and n.args[1].id in ("AbstractApprovalProfile", "AbstractCardinalProfile"):
+            x = self.expr(n.args[0], env)
+            if x.ty in (APPLP, CARDLP):
+                r = (x.ty == APPLP) == (n.args[1].id == "AbstractApprovalProfile")
+                return V("true" if r else "false", B, const=r)
+            raise Unsupported("isinstance on a profile whose kind is not known")
+        if name == "ApprovalBallot" and len(n.args) == 1:
+            x = self.expr(n.args[0], env)
+            if x.ty == INST:          # the ballot approving every project of the instance
+                return V("(py_full_ballot %s)" % x.term, BALLOT)
+            raise Unsupported("ApprovalBallot(...) of something else than the instance")
         if name == "isinstance" and len(n.args) == 2 and isinstance(n.args[1], ast.Name) and n.args[1].id == "tuple":
             x = self.expr(n.args[0], env)          # decided by the type of the sequence the value comes from
             ist = isinstance(x.ty, tuple) and x.ty[0] == "Tup"
@@ -700,6 +852,8 @@ class FuncTranslator:
             if not args[0].term.startswith("(py_np_median "):
                 raise Unsupported("call of float outside the fragment")
             return V("(py_float %s)" % args[0].term, Q)
+        if name == "round" and len(args) == 2:      # round half to even on exact rationals
+            return V("(py_round %s %s)" % (self.num(args[0]).term, self.num(args[1]).term), Q)
         if name == "int" and len(args) == 1:
             if args[0].ty == B:
                 return V("(py_int_of_bool %s)" % args[0].term, Q)
@@ -712,6 +866,8 @@ class FuncTranslator:
                 return V("(py_len_ballot %s)" % a.term, Q)
             if a.ty == PBALLOT:
                 return V("(py_len_pballot %s)" % a.term, Q)
+            if a.ty == ERRORS:        # only to be compared with 0
+                return V(a.term, "ErrLen")
             if a.ty == PROFILE:
                 return V("(py_len_profile %s)" % a.term, Q)
             if a.ty == INST:
@@ -781,6 +937,56 @@ class FuncTranslator:
             raise err
         raise Unsupported("call of %s outside the fragment" % name)
 
+    def call_translated(self, name, n, env):
+        """call of a translated function: positional and keyword arguments are matched with the parameters of the
+        source function, omitted ones take their default; the variant is chosen by the types (and by which
+        arguments are None)"""
+        k, node = self.W.funcs.get(name, (None, None))
+        if node is None:
+            raise Unsupported("function %s not found" % name)
+        a = node.args
+        pnames = [x.arg for x in a.args]
+        dflt = dict(zip(pnames[len(pnames) - len(a.defaults):], a.defaults)) if a.defaults else {}
+        if len(n.args) > len(pnames) or any(isinstance(x, ast.Starred) for x in n.args):
+            raise Unsupported("call of %s with too many arguments" % name)
+        given = {}
+        for pn, x in zip(pnames, n.args):
+            if is_oneshot(x) and not consumed_once(node.body, pn):
+                raise Unsupported("a one-shot iterator handed to %s, which reads that argument more than once" % name)
+            given[pn] = self.expr(x, env)
+        for kw in n.keywords:
+            if kw.arg is None or kw.arg not in pnames or kw.arg in given:
+                raise Unsupported("keyword argument of %s outside the fragment" % name)
+            if is_oneshot(kw.value) and not consumed_once(node.body, kw.arg):
+                raise Unsupported("a one-shot iterator handed to %s, which reads that argument more than once" % name)
+            given[kw.arg] = self.expr(kw.value, env)
+        err = Unsupported("no translated variant of %s for these arguments" % name)
+        for fn in self.W.variants(name):
+            ptypes = FUNCS[fn][1]
+            if len(ptypes) != len(pnames):
+                continue
+            try:
+                vals = []
+                for pn, t in zip(pnames, ptypes):
+                    if pn in given:
+                        v = given[pn]
+                    elif pn in dflt:
+                        v = self.expr(dflt[pn], {})
+                    else:
+                        raise Unsupported("argument %s of %s is missing" % (pn, name))
+                    if t == NONE_ARG:
+                        if v.ty != NONE:
+                            raise Unsupported("variant mismatch")
+                        continue
+                    if v.ty == NONE:
+                        raise Unsupported("variant mismatch")
+                    vals.append(self.coerce(v, t))
+                g = self.W.variant_value(fn, self)
+                return self.apply_fun(g, vals)
+            except Unsupported as e:
+                err = e
+        raise err
+
     # ---------------- statements ----------------
     def bind(self, env, name, v, body_of):
         env2 = dict(env)
@@ -802,6 +1008,15 @@ class FuncTranslator:
 
         if _is_doc(s) or isinstance(s, (ast.Pass, ast.Assert)):
             return nxt(env)
+        if isinstance(s, ast.Expr) and isinstance(s.value, ast.Call) and isinstance(s.value.func, ast.Name) \
+                and s.value.func.id == "print":
+            return nxt(env)             # output is not part of the value
+        if isinstance(s, ast.Expr) and isinstance(s.value, ast.Call) and isinstance(s.value.func, ast.Attribute) \
+                and s.value.func.attr == "append" and isinstance(s.value.func.value, ast.Subscript) \
+                and isinstance(s.value.func.value.value, ast.Name) and s.value.func.value.value.id in env \
+                and env[s.value.func.value.value.id].ty == ERRORS:
+            # errors[key].append(message): the message is not evaluated, the collector becomes non-empty
+            return self.bind(env, s.value.func.value.value.id, V("true", ERRORS), nxt)
         if isinstance(s, ast.Expr) and isinstance(s.value, ast.Yield):
             # a generator function: the values yielded so far are the hidden list `$yield`
             if s.value.value is None or "$yield" not in env:
@@ -831,7 +1046,12 @@ class FuncTranslator:
                 raise Unsupported("local function signature outside the fragment")
             # Python closures see LATER assignments of the variables they mention; the inlining uses the values at the
             # point of definition, so a later assignment of such a variable is outside the fragment
-            free = {x.id for b in s.body for x in ast.walk(b) if isinstance(x, ast.Name)} - {x.arg for x in a.args}
+            bound = {x.arg for x in a.args} | self.assigned_names(s.body)
+            for b in s.body:          # comprehension variables are local to their comprehension
+                for x in ast.walk(b):
+                    if isinstance(x, ast.comprehension):
+                        bound |= {y.id for y in ast.walk(x.target) if isinstance(y, ast.Name)}
+            free = {x.id for b in s.body for x in ast.walk(b) if isinstance(x, ast.Name)} - bound
             for later in rest:
                 for x in ast.walk(later):
                     if isinstance(x, (ast.Assign, ast.AugAssign, ast.AnnAssign, ast.For)):
@@ -851,6 +1071,10 @@ class FuncTranslator:
                 raise Unsupported("chained assignment")
             t = s.targets[0]
             if isinstance(t, ast.Name):
+                if is_oneshot(s.value) and not consumed_once(rest, t.id):
+                    # the translation reads a generator as the list of its values, which is only right when it is
+                    # consumed once: a generator bound to a name and read again is empty the second time
+                    raise Unsupported("a one-shot iterator bound to a name and consumed more than once")
                 v = self.expr(s.value, env)
                 c = self.take()
                 return self.wrap(c, self.bind(env, t.id, v, nxt), ctx)
@@ -892,6 +1116,9 @@ class FuncTranslator:
             c2 = ctx.with_fall(nxt)
             if c.const is not None:
                 return self.wrap(cc, self.block(s.body if c.const else s.orelse, env, c2), ctx)
+            joined = self.if_join(s, env, c, nxt)
+            if joined is not None:
+                return self.wrap(cc, joined, ctx)
             return self.wrap(cc, "(if %s\n  then %s\n  else %s)" % (c.term, self.block(s.body, env, c2),
                                                                      self.block(s.orelse, env, c2)), ctx)
         if isinstance(s, ast.Return):
@@ -915,6 +1142,72 @@ class FuncTranslator:
         if isinstance(s, ast.For):
             return self.for_loop(s, env, ctx, nxt)
         raise Unsupported("statement %s outside the fragment" % type(s).__name__)
+
+    def assigned_names(self, stmts):
+        out = set()
+        for n in _walk_no_defs(stmts):
+            if isinstance(n, (ast.Assign, ast.AugAssign, ast.AnnAssign)):
+                for t in (n.targets if isinstance(n, ast.Assign) else [n.target]):
+                    for x in ast.walk(t):
+                        if isinstance(x, ast.Name):
+                            out.add(x.id)
+            if isinstance(n, ast.For):
+                for x in ast.walk(n.target):
+                    if isinstance(x, ast.Name):
+                        out.add(x.id)
+            if isinstance(n, ast.Yield):
+                out.add("$yield")
+            if isinstance(n, ast.Call) and isinstance(n.func, ast.Attribute) and n.func.attr == "append":
+                v = n.func.value
+                if isinstance(v, ast.Subscript):
+                    v = v.value
+                if isinstance(v, ast.Name):
+                    out.add(v.id)
+        return out
+
+    def if_join(self, s, env, c, nxt):
+        """`if c: A else: B` whose branches only update variables that exist already (no return / break / raise,
+        no new names, no obligations): the variables are joined -- let (x, y) := if c then .. else .. -- instead of
+        duplicating everything that follows in both branches"""
+        both = list(s.body) + list(s.orelse)
+        for n in _walk_no_defs(both):
+            if isinstance(n, (ast.Return, ast.Raise, ast.Break, ast.Continue, ast.FunctionDef)):
+                return None
+        names = self.assigned_names(both)
+        if not names or any(x not in env or env[x].term is None or env[x].ty in ("Macro", CACHE, NONE, List(None))
+                            for x in names):
+            return None
+        jvars = [x for x in env if x in names]
+
+        class _NoJoin(Exception):
+            pass
+
+        def pack(e):
+            for x in jvars:
+                if e[x].ty != env[x].ty or e[x].term is None:
+                    raise _NoJoin()
+            vals = [gname(x) for x in jvars]
+            return vals[0] if len(vals) == 1 else "(" + ", ".join(vals) + ")"
+
+        def no_ret(v):
+            raise _NoJoin()
+
+        jctx = Ctx(no_ret, pack, fail=lambda: (_ for _ in ()).throw(_NoJoin()))
+        save = (self.ob_count, list(self.pending), list(self.binds), dict(self.list_hints), dict(self.extras))
+        try:
+            a = self.block(s.body, env, jctx)
+            b = self.block(s.orelse, env, jctx)
+            if self.ob_count != save[0] and self.safety:
+                raise _NoJoin()
+        except (_NoJoin, _NeedOption):
+            self.ob_count, self.pending, self.binds, self.list_hints = save[0], save[1], save[2], save[3]
+            return None
+        pat = pack(env)
+        env2 = dict(env)
+        for x in jvars:
+            env2[x] = V(gname(x), env[x].ty)
+        lhs = pat if len(jvars) == 1 else "'" + pat
+        return "let %s := (if %s\n  then %s\n  else %s) in\n  %s" % (lhs, c.term, a, b, nxt(env2))
 
     def option_mode_needed(self):
         if not self.option_mode:
@@ -947,6 +1240,9 @@ class FuncTranslator:
             if isinstance(n, ast.Call) and isinstance(n.func, ast.Attribute) and n.func.attr == "append" \
                     and isinstance(n.func.value, ast.Name):
                 assigned.add(n.func.value.id)
+            if isinstance(n, ast.Call) and isinstance(n.func, ast.Attribute) and n.func.attr == "append" \
+                    and isinstance(n.func.value, ast.Subscript) and isinstance(n.func.value.value, ast.Name):
+                assigned.add(n.func.value.value.id)
         # state variables in the order in which the function first assigned them (renaming keeps the order)
         svars = [x for x in env if not (x.startswith("$") and x != "$yield") and x in assigned
                  and env[x].term is not None and x not in tnames]
@@ -955,6 +1251,22 @@ class FuncTranslator:
         if not (svars or has_ret or has_brk):
             return self.wrap(c_it, nxt(env), ctx)
         k = self._fresh()
+        # `return` / `break` that are never reached (statically folded branches) do not get a state component:
+        # translate once to see which are used, and again if fewer are
+        use = {"ret": False, "brk": False}
+        probe_ctx = Ctx(lambda v: (use.__setitem__("ret", True), ctx.ret(v))[1], ctx.fall, ctx.brk, ctx.cont, ctx.rtype,
+                        ctx.fail)
+        if has_ret or has_brk:
+            save = (self.counter, list(self.pending), list(self.binds), self.ob_count, dict(self.extras))
+            try:
+                self._for_loop(s, env, probe_ctx, lambda e: "_", it, c_it, et, tnames, svars, has_ret, has_brk, False, k, [],
+                               use)
+            except Unsupported:
+                pass
+            self.counter, self.pending, self.binds, self.ob_count = save[0], save[1], save[2], save[3]
+            has_ret, has_brk = has_ret and use["ret"], has_brk and use["brk"]
+            if not (svars or has_ret or has_brk):
+                return self.wrap(c_it, nxt(env), ctx)
         if self.safety:
             # the `ok` component is only needed when the body can violate an obligation: try with it, and
             # translate again without it when it was never used
@@ -965,7 +1277,7 @@ class FuncTranslator:
                 return out.replace("$FAIL%d$" % k, ctx.fail())
         return self._for_loop(s, env, ctx, nxt, it, c_it, et, tnames, svars, has_ret, has_brk, False, k, [])
 
-    def _for_loop(self, s, env, ctx, nxt, it, c_it, et, tnames, svars, has_ret, has_brk, safe, k, used):
+    def _for_loop(self, s, env, ctx, nxt, it, c_it, et, tnames, svars, has_ret, has_brk, safe, k, used, use=None):
         okv, stop, retv = "ok%d" % k, "stop%d" % k, "ret%d" % k
         # state of the fold: [safety mode: no obligation violated so far], [stop flag (only when the body can
         # `break`)], [pending return value (when it can `return`): Some r = the function has returned r], the
@@ -980,8 +1292,15 @@ class FuncTranslator:
                 [gname(x) for x in svars]
 
         def l_ret(v):
+            if use is not None:
+                use["ret"] = True
             inner = ctx.ret(v)     # what the enclosing context makes of `return v`
             return pack(None, "(Some (%s))" % inner)
+
+        def l_brk(e):
+            if use is not None:
+                use["brk"] = True
+            return pack("true")
 
         env_b = dict(env)
         if len(tnames) == 1:
@@ -989,10 +1308,12 @@ class FuncTranslator:
             tpat = gname(tnames[0])
             tbind = ""
         else:
+            # for i, v in pairs: the loop variable is the pair, the two names are its projections (no
+            # destructuring `let`, so that the body keeps the shape  fold_left (step it) (list it) state)
             tpat = "it%d" % k
-            tbind = "let '(%s, %s) := %s in " % (gname(tnames[0]), gname(tnames[1]), tpat)
-            env_b[tnames[0]] = V(gname(tnames[0]), et[1][0])
-            env_b[tnames[1]] = V(gname(tnames[1]), et[1][1])
+            tbind = ""
+            env_b[tnames[0]] = V("(fst %s)" % tpat, et[1][0])
+            env_b[tnames[1]] = V("(snd %s)" % tpat, et[1][1])
         for x in svars:
             if env[x].ty == List(None):
                 # learn the element type from the body (its first append), then give up on this pass: translate()
@@ -1006,7 +1327,7 @@ class FuncTranslator:
         ctypes = (["bool"] if safe else []) + (["bool"] if has_brk else []) + \
                  (["(option %s)" % ctx.rtype] if has_ret else []) + [gty(env[x].ty) for x in svars]
         stype = ctypes[0] if len(ctypes) == 1 else "(" + " * ".join(ctypes) + ")%type"
-        lctx = Ctx(l_ret, lambda e: pack(), brk=lambda e: pack("true"), cont=lambda e: pack(), rtype=stype,
+        lctx = Ctx(l_ret, lambda e: pack(), brk=l_brk, cont=lambda e: pack(), rtype=stype,
                    fail=lambda: (used.append(1), pack(None, None, "false"))[1])
         body = self.block(s.body, env_b, lctx)
         pat = pack()
@@ -1050,10 +1371,13 @@ FILES = {
     "VSAT": "pabutools/analysis/votersatisfaction.py",
     "PPR": "pabutools/analysis/profileproperties.py",
     "IPR": "pabutools/analysis/instanceproperties.py",
+    "PRC": "pabutools/analysis/priceability.py",
+    "COH": "pabutools/analysis/cohesiveness.py",
+    "JRP": "pabutools/analysis/justifiedrepresentation.py",
 }
 # which property a source file belongs to (gen_untranslated_<group>)
 GROUP = {"ADD": "sat", "FUN": "sat", "POS": "sat", "SATM": "sat", "TIE": "tie", "INS": "inst", "UTL": "stats",
-         "VSAT": "stats", "PPR": "stats", "IPR": "stats"}
+         "VSAT": "stats", "PPR": "stats", "IPR": "stats", "PRC": "price", "COH": "jr", "JRP": "jr"}
 
 F_ADD = Fun([INST, PROFILE, BALLOT, PROJ, DICT], Q)
 F_FUN = Fun([INST, PROFILE, BALLOT, List(PROJ)], Q)
@@ -1101,6 +1425,40 @@ for _n in ("avg_ballot_length", "median_ballot_length", "avg_ballot_cost", "medi
     FUNCS[_n] = ("PPR", [INST, PROFILE], Q)
 for _n in ("sum_project_cost", "funding_scarcity", "avg_project_cost", "median_project_cost", "std_dev_project_cost"):
     FUNCS[_n] = ("IPR", [INST], Q)
+# --- utils.round_cmp, analysis/priceability.validate_price_system (C12gen) ---
+FUNCS["round_cmp"] = ("UTL", [Q, Q, Q], Q)
+_VPS = [INST, List(List(PROJ)), List(PROJ), Q, PAYMENTS, B, B]
+FUNCS["validate_price_system"] = ("PRC", _VPS + [NONE_ARG], B)                       # relaxation=None
+FUNCS["validate_price_system_relax"] = ("PRC", _VPS + [RELAX], B, "validate_price_system")
+# --- analysis/cohesiveness.py, analysis/justifiedrepresentation.py (C14gen): list profiles ---
+_GROUPS = List(Tup(List(BALLOT), List(PROJ)))
+_UPTO = Fun([List(Q)], Q)
+FUNCS["powerset_ballots"] = ("UTL", [List(BALLOT)], List(List(BALLOT)), "powerset")
+FUNCS["is_large_enough"] = ("COH", [Q, Q, Q, Q], B)
+FUNCS["is_cohesive_approval"] = ("COH", [INST, APPLP, List(PROJ), List(BALLOT)], B)
+FUNCS["is_cohesive_cardinal"] = ("COH", [INST, CARDLP, List(PROJ), List(BALLOT), PDICT], B)
+FUNCS["cohesive_groups"] = ("COH", [INST, APPLP, NONE_ARG], _GROUPS)
+FUNCS["cohesive_groups_cardinal"] = ("COH", [INST, CARDLP, NONE_ARG], _GROUPS, "cohesive_groups")
+FUNCS["is_in_core"] = ("JRP", [INST, APPLP, SATCLASSL, List(PROJ), NONE_ARG], B)
+FUNCS["is_in_core_upto"] = ("JRP", [INST, APPLP, SATCLASSL, List(PROJ), _UPTO], B, "is_in_core")
+FUNCS["is_strong_EJR_approval"] = ("JRP", [INST, APPLP, SATCLASSL, List(PROJ)], B)
+FUNCS["is_EJR_approval"] = ("JRP", [INST, APPLP, SATCLASSL, List(PROJ), NONE_ARG], B)
+FUNCS["is_EJR_approval_upto"] = ("JRP", [INST, APPLP, SATCLASSL, List(PROJ), _UPTO], B, "is_EJR_approval")
+FUNCS["is_EJR_any_approval"] = ("JRP", [INST, APPLP, SATCLASSL, List(PROJ)], B)
+FUNCS["is_EJR_one_approval"] = ("JRP", [INST, APPLP, SATCLASSL, List(PROJ)], B)
+FUNCS["is_PJR_approval"] = ("JRP", [INST, APPLP, SATCLASSL, List(PROJ), NONE_ARG], B)
+FUNCS["is_PJR_approval_upto"] = ("JRP", [INST, APPLP, SATCLASSL, List(PROJ), _UPTO], B, "is_PJR_approval")
+FUNCS["is_PJR_any_approval"] = ("JRP", [INST, APPLP, SATCLASSL, List(PROJ)], B)
+FUNCS["is_PJR_one_approval"] = ("JRP", [INST, APPLP, SATCLASSL, List(PROJ)], B)
+FUNCS["is_strong_EJR_cardinal"] = ("JRP", [INST, CARDLP, List(PROJ), SATCLASSL], B)
+FUNCS["is_EJR_cardinal"] = ("JRP", [INST, CARDLP, List(PROJ), SATCLASSL, NONE_ARG], B)
+FUNCS["is_EJR_cardinal_upto"] = ("JRP", [INST, CARDLP, List(PROJ), SATCLASSL, _UPTO], B, "is_EJR_cardinal")
+FUNCS["is_EJR_any_cardinal"] = ("JRP", [INST, CARDLP, List(PROJ)], B)
+FUNCS["is_EJR_one_cardinal"] = ("JRP", [INST, CARDLP, List(PROJ)], B)
+FUNCS["is_PJR_cardinal"] = ("JRP", [INST, CARDLP, List(PROJ), NONE_ARG], B)
+FUNCS["is_PJR_cardinal_upto"] = ("JRP", [INST, CARDLP, List(PROJ), _UPTO], B, "is_PJR_cardinal")
+FUNCS["is_PJR_any_cardinal"] = ("JRP", [INST, CARDLP, List(PROJ)], B)
+FUNCS["is_PJR_one_cardinal"] = ("JRP", [INST, CARDLP, List(PROJ)], B)
 # float-only statistics (numpy arrays filled by index, np.std, math.ceil): correspondence only; they are attempted
 # all the same and listed in gen_correspondence_only when they fall outside the fragment
 EXPECTED_OUT = ("satisfaction_histogram", "median_ballot_length", "median_ballot_cost", "std_dev_project_cost")
@@ -1182,6 +1540,7 @@ class World:
         self.repo = repo
         self.trees, self.classes, self.funcs, self.errors = {}, {}, {}, []
         self.lambdas = {}
+        self.constants = {}
         for k, rel in FILES.items():
             try:
                 path = os.path.join(repo, rel)
@@ -1197,6 +1556,10 @@ class World:
                 elif isinstance(n, ast.Assign) and len(n.targets) == 1 and isinstance(n.targets[0], ast.Name) \
                         and isinstance(n.value, ast.Lambda):
                     self.lambdas[n.targets[0].id] = n.value
+                elif isinstance(n, ast.Assign) and len(n.targets) == 1 and isinstance(n.targets[0], ast.Name) \
+                        and isinstance(n.value, ast.Constant) and isinstance(n.value.value, int) \
+                        and not isinstance(n.value.value, bool):
+                    self.constants[n.targets[0].id] = n.value.value      # module-level integer constant
         self.defs = {}          # name -> Def (memo), insertion order = emission order (dependencies first)
         self.busy = set()
 
@@ -1324,8 +1687,13 @@ class World:
 
     def translate(self, d, node, ptypes, ret, self_cls, fields, safe=False):
         a = node.args
-        if a.vararg or a.kwarg or a.kwonlyargs or a.posonlyargs or getattr(node, "decorator_list", []):
+        if a.vararg or a.kwarg or a.posonlyargs or getattr(node, "decorator_list", []):
             raise Unsupported("signature outside the fragment")
+        kwonly = {}
+        for x, dv in zip(a.kwonlyargs, a.kw_defaults):     # keyword-only parameters keep their (constant) default
+            if not isinstance(dv, ast.Constant):
+                raise Unsupported("keyword-only parameter without a constant default")
+            kwonly[x.arg] = dv
         params = [x.arg for x in a.args]
         if self_cls is not None:
             if not params or params[0] != "self":
@@ -1362,6 +1730,8 @@ class World:
                 env["$self"] = sf
                 if "instance" in sf:
                     env["$inst"] = sf["instance"]
+            for kname, dv in kwonly.items():
+                env[kname] = tr.expr(dv, {})
             dflt_of = dict(zip(params[len(params) - len(a.defaults):], a.defaults)) if a.defaults else {}
             for p, t in zip(params, ptypes):
                 if t == NONE_ARG:      # the argument is omitted: the parameter has its default
@@ -1803,7 +2173,7 @@ class World:
         for e in self.errors:
             L.append("(* SOURCE FILE NOT READABLE: %s *)" % _comment_safe(e))
         failed = []
-        by_group = {"sat": [], "tie": [], "inst": [], "stats": []}
+        by_group = {"sat": [], "tie": [], "inst": [], "stats": [], "price": [], "jr": []}
         corr_only = []
         for d in self.defs.values():
             L.append("(* " + _comment_safe(d.comment) + " *)")
@@ -1850,7 +2220,7 @@ class World:
         L.append("Definition gen_wiring : list (string * list py_wire) :=\n  [%s]." % ";\n   ".join(ws))
         L.append("Definition gen_tie_rules : list string := [%s]." % "; ".join(coq_string(x) for x in self.tie_rules))
         L.append("Definition gen_untranslated : list string := [%s]." % "; ".join(coq_string(x) for x in failed))
-        for g in ("sat", "tie", "inst", "stats"):
+        for g in ("sat", "tie", "inst", "stats", "price", "jr"):
             L.append("Definition gen_untranslated_%s : list string := [%s]." % (
                 g, "; ".join(coq_string(x) for x in by_group[g])))
         L.append("(* float-only statistics that are outside the fragment (correspondence only) *)")
